@@ -43,7 +43,7 @@ STD = ['std Vec/VecDeque/BinaryHeap/HashSet/HashMap behave as documented', 'payl
 PROPS['C01'] = dict(
     rules=[_r('P1', re_.p1_connect, DIRECTED), _r('P2', re_.p2_disconnect_directed, DIRECTED), _r('P3', re_.p3_isolate, DIRECTED),
            _r('RM1', re_.rm1_first_match, DIRECTED), _r('SYM', re_.sym, DIRECTED), _r('ENC', re_.enc, DIRECTED), _r('OBS', re_.obs, DIRECTED),
-           _r('IT2', rg.it2, DIRECTED), _r('ORIENT', re_.orient, DIRECTED)],
+           _r('IT2', rg.it2, DIRECTED), _r('ORIENT', re_.orient, DIRECTED), _r('ADJ-PRIM', re_.adj_prim, DIRECTED)],
     explanation='Induction premises for the mirror invariant of the directed flavours: the invariant holds for Adjacent::new (two empty Vecs, ENC-new), is preserved by each of the '
                 'three mutators (P1 connect pushes the pair, P2 disconnect removes the pair keyed by each other, P3 isolate removes every mirror entry then clears), removals are '
                 'first-match forward scans on both sides (RM1, SYM), nothing else writes the lists (ENC a-d), and every observer reads the list its name says (OBS, IT2/ORIENT).',
@@ -54,7 +54,7 @@ PROPS['C01'] = dict(
 PROPS['C02'] = dict(
     rules=[_r('P1', re_.p1_connect, UNDIRECTED), _r('P2u', re_.p2_disconnect_undirected, UNDIRECTED), _r('P3', re_.p3_isolate, UNDIRECTED),
            _r('RM1', re_.rm1_first_match, UNDIRECTED), _r('SYM', re_.sym, UNDIRECTED), _r('ENC', re_.enc, UNDIRECTED), _r('OBS', re_.obs, UNDIRECTED),
-           _r('GET-ADJ', re_.get_adj, UNDIRECTED), _r('IT2', rg.it2, UNDIRECTED), _r('ORIENT', re_.orient, UNDIRECTED)],
+           _r('GET-ADJ', re_.get_adj, UNDIRECTED), _r('IT2', rg.it2, UNDIRECTED), _r('ORIENT', re_.orient, UNDIRECTED), _r('ADJ-PRIM', re_.adj_prim, UNDIRECTED)],
     explanation='Same scheme for the undirected flavours: every edge is two half-edges (owner OUT list, partner IN list); connect pushes both halves, disconnect removes one half at '
                 'the caller and the complementary half at the peer (P2u), isolate removes the partner half at every neighbour (P3), the adjacency view is OUT ++ IN with the exact '
                 'index arithmetic (GET-ADJ), degree adds both lengths once (OBS).',
@@ -65,7 +65,7 @@ PROPS['C02'] = dict(
 PROPS['C03'] = dict(
     rules=[_r('P1', re_.p1_connect, FLAVOURS), _r('P2', re_.p2_disconnect_directed, DIRECTED), _r('P2u', re_.p2_disconnect_undirected, UNDIRECTED), _r('P3', re_.p3_isolate, FLAVOURS),
            _r('T1', re_.t1_try_connect, FLAVOURS), _r('T2', re_.t2_disconnect_result, FLAVOURS), _r('RM1', re_.rm1_first_match, FLAVOURS),
-           _r('ENC', re_.enc, FLAVOURS), _r('G3', rg.g3, FLAVOURS), _r('GET-ADJ', re_.get_adj, UNDIRECTED)],
+           _r('ENC', re_.enc, FLAVOURS), _r('G3', rg.g3, FLAVOURS), _r('GET-ADJ', re_.get_adj, UNDIRECTED), _r('ADJ-PRIM', re_.adj_prim, FLAVOURS)],
     explanation='Multigraph contract of the four edge operations on all four flavours: exactly-one-edge effects (P1/P2/P3), try_connect guarded by the existence query with the right '
                 'footprint (T1), disconnect result/error set (T2), order-preserving list operations only (ENC-b: push/remove/clear; RM1 first match), one allocation per node so any '
                 'handle is the same node (ENC-d), and no conflicting re-acquisition of a node cell anywhere (G3: no RefCell double borrow panic / RwLock self-deadlock, with every pair of '
@@ -85,7 +85,7 @@ PROPS['C20'] = dict(
     assumptions=STD,
 )
 PROPS['C04'] = dict(
-    rules=kernel_pack(('Bfs',), FLAVOURS, 'path') + [_r('RESMAP', dp.result_map, FLAVOURS, ('Bfs',), 'path'), _r('TR1', dp.tr1, DIRECTED, ('Bfs',), 'path'), _r('METHOD', rk.method, FLAVOURS), _r('BT', rb.bt, FLAVOURS)],
+    rules=kernel_pack(('Bfs',), FLAVOURS, 'path') + [_r('RESMAP', dp.result_map, FLAVOURS, ('Bfs',), 'path'), _r('TR1', dp.tr1, DIRECTED, ('Bfs',), 'path'), _r('METHOD', rk.method, FLAVOURS), _r('BT', rb.bt, FLAVOURS), _r('PATH', rb.path_api, FLAVOURS)],
     explanation='Breadth-first kernels (12) and their entry points: FIFO frontier (BFS1), discovery discipline (DISC i-vii), exhaustive expansion (EXH), '
                 'callback-first (EXEC1), orientation (TR0/TR1), seeding (INIT), result mapping (RESMAP), back-tracking (BT) decided on MIR by dominance and provenance.',
     decides='the structural premises of the textbook BFS argument on every path of every kernel and entry point',
@@ -94,7 +94,7 @@ PROPS['C04'] = dict(
 )
 
 PROPS['C05'] = dict(
-    rules=kernel_pack(('Dfs',), FLAVOURS, 'path') + [_r('RESMAP', dp.result_map, FLAVOURS, ('Dfs',), 'path'), _r('TR1', dp.tr1, DIRECTED, ('Dfs',), 'path'), _r('METHOD', rk.method, FLAVOURS), _r('BT', rb.bt, FLAVOURS)],
+    rules=kernel_pack(('Dfs',), FLAVOURS, 'path') + [_r('RESMAP', dp.result_map, FLAVOURS, ('Dfs',), 'path'), _r('TR1', dp.tr1, DIRECTED, ('Dfs',), 'path'), _r('METHOD', rk.method, FLAVOURS), _r('BT', rb.bt, FLAVOURS), _r('PATH', rb.path_api, FLAVOURS)],
     explanation='Depth-first kernels (12 recursive) and entries: LIFO frontier with push(FAR) immediately followed by the recursive call (DFS1), discovery discipline (DISC), no early exit and '
                 'found-propagation (EXH), callback-first (EXEC1), orientation, seeding, result mapping and back-tracking (BT).',
     decides='the structural premises of "DFS finds a simple path iff reachable" on every path of every kernel',
@@ -103,7 +103,7 @@ PROPS['C05'] = dict(
 )
 PROPS['C06'] = dict(
     rules=kernel_pack(('Pfs',), FLAVOURS, 'path') + [_r('PFS1', dp.pfs1, FLAVOURS, 'path'), _r('RESMAP', dp.result_map, FLAVOURS, ('Pfs',), 'path'), _r('TR1', dp.tr1, DIRECTED, ('Pfs',), 'path'),
-                                           _r('METHOD', rk.method, FLAVOURS), _r('BT', rb.bt, FLAVOURS), _r('ORD-NODE', rm.ord_node, FLAVOURS), _r('PFS-SEARCH', rm.pfs_search, FLAVOURS)],
+                                           _r('METHOD', rk.method, FLAVOURS), _r('BT', rb.bt, FLAVOURS), _r('PATH', rb.path_api, FLAVOURS), _r('ORD-NODE', rm.ord_node, FLAVOURS), _r('PFS-SEARCH', rm.pfs_search, FLAVOURS)],
     explanation='Priority-first kernels (12) and entries: BinaryHeap pop/push with Reverse exactly on the Min arms (PFS-FRONT, PFS1), discovery discipline incl. closing edge recorded before '
                 'FOUND (DISC iv/v), no early exit, node ordering by value identically through Ord and PartialOrd and equality by key (ORD-NODE), search = last node of search_path.',
     decides='heap discipline, Min/Max dispatch, comparison impls, discovery discipline',
@@ -131,7 +131,7 @@ PROPS['C08'] = dict(
     assumptions=STD,
 )
 PROPS['C09'] = dict(
-    rules=kernel_pack(('Bfs', 'Dfs', 'Pfs'), FLAVOURS, 'cycle') + [_r('RESMAP', dp.result_map, FLAVOURS, ('Bfs', 'Dfs', 'Pfs'), 'cycle'), _r('TR1', dp.tr1, DIRECTED, ('Bfs', 'Dfs', 'Pfs'), 'cycle'), _r('PFS1', dp.pfs1, FLAVOURS, 'cycle'), _r('BT', rb.bt, FLAVOURS)],
+    rules=kernel_pack(('Bfs', 'Dfs', 'Pfs'), FLAVOURS, 'cycle') + [_r('RESMAP', dp.result_map, FLAVOURS, ('Bfs', 'Dfs', 'Pfs'), 'cycle'), _r('TR1', dp.tr1, DIRECTED, ('Bfs', 'Dfs', 'Pfs'), 'cycle'), _r('PFS1', dp.pfs1, FLAVOURS, 'cycle'), _r('BT', rb.bt, FLAVOURS), _r('PATH', rb.path_api, FLAVOURS)],
     explanation='12 cycle entries: target := key(root), root queued and not marked so that it can be re-discovered (CYC-INIT), then the same kernels (DISC/EXH/FRONT), transposed arms (TR1), '
                 'and back-tracking incl. BT-disjoint (the closing edge is not joined to itself).',
     decides='seeding of cycle searches, kernel discipline, back-tracking join and range',
